@@ -137,7 +137,11 @@ m(["C23"], "flag-read-before-search", "src/solutions.rs",
   "        if query_stopped() { break; }\n        let solution = next_solution(Rc::clone(&sn));", "R3/guarded-report(solve_all)")
 m(["C23"], "count-rules-ignores-flag", "src/knowledge_base.rs", "    if query_stopped() { return 0; }\n\n    match kb.get(predicate_name) {\n        Some(list) => { return list.len(); },", "    let stopped = query_stopped();\n\n    match kb.get(predicate_name) {\n        Some(list) => { return if stopped && list.len() > 64 { 0 } else { list.len() }; },", "R5/stopped-means-no-clauses")
 m(["C24"], "get-unchecked-in-unify", "src/unifiable.rs", "                if id < length_src && ss[id] != None {\n                    if let Some(term) = &ss[id] {", "                if id < length_src && ss[id] != None {\n                    if let Some(term) = unsafe { ss.get_unchecked(id) } {", "R5/unaudited")
-m(["C24"], "timer-closure-clears-id", "src/time_out.rs", "                move || { stop_query(); }).unwrap();", "                move || { stop_query(); clear_id(); }).unwrap();", "R2/race(LOGIC_VAR_ID)")
+m(["C24"], "timer-closure-clears-id", "src/time_out.rs", "                        stop_query();\n                    }\n                }).unwrap();", "                        stop_query(); clear_id();\n                    }\n                }).unwrap();", "R2/race(LOGIC_VAR_ID)")
+m(["C23", "C22"], "cancel-does-not-advance-timer-id", "src/time_out.rs", "    SUIRON_TIMER_ID.fetch_add(1, Ordering::SeqCst);\n    match timer.cancel() {", "    match timer.cancel() {", "R2/failed-cancel-harmless")
+m(["C23", "C22"], "thunk-unconditional-again", "src/time_out.rs", "                    if SUIRON_TIMER_ID.load(Ordering::SeqCst) == timer_id {\n                        stop_query();\n                    }", "                    let _ = timer_id;\n                    stop_query();", "R2/failed-cancel-harmless")
+m(["C23"], "thunk-fires-only-when-stale", "src/time_out.rs", "                    if SUIRON_TIMER_ID.load(Ordering::SeqCst) == timer_id {", "                    if SUIRON_TIMER_ID.load(Ordering::SeqCst) != timer_id {", "R2/timer-thunk-sets-flag")
+m(["C23"], "timer-id-not-taken-at-start", "src/time_out.rs", "    let timer_id = SUIRON_TIMER_ID.fetch_add(1, Ordering::SeqCst).wrapping_add(1);", "    let timer_id = SUIRON_TIMER_ID.load(Ordering::SeqCst);", "R2/timer-thunk-sets-flag")
 m(["C24"], "self-guard-removed", "src/solution_node.rs",
   "                            if !std::ptr::eq(raw_ptr2, self as *const Self) {\n                                (*raw_ptr2).no_backtracking = true;\n                            }",
   "                            (*raw_ptr2).no_backtracking = true;", "R3a/raw-write(via-head_sn)")
